@@ -2,6 +2,7 @@
   C05 — complex-integer conversion is exact, layout-faithful and shape/stride agnostic.
 -/
 import NiVerif.Model.Complex
+import NiVerif.Gen.ComplexConvert
 
 namespace Props.C05
 open Model.Complex Gen.ComplexDtypes
@@ -374,5 +375,97 @@ example : convert .c64 ⟨.ci32, [2], [(⟨-32768, 0⟩, ⟨32767, 0⟩), (⟨5,
     = .ok ⟨.c64, [2], [(⟨-32768, 0⟩, ⟨32767, 0⟩), (⟨5, 0⟩, ⟨-7, 0⟩)]⟩ := by decide
 example : convert .ci32 ⟨.c128, [1], [(⟨-5, 1⟩, ⟨65535, 1⟩)]⟩ = .ok ⟨.ci32, [1], [(⟨-2, 0⟩, ⟨32767, 0⟩)]⟩ := by decide
 example : roundNat 24 16777217 = 16777216 ∧ roundNat 24 16777219 = 16777220 := by decide
+
+
+/-! ### T25: the generated `convert_complex` (Gen/ComplexConvert.lean) is the model's `convert` -/
+
+open Gen.ComplexConvert in
+theorem gen_inner_eq (req : DT) (a : Arr) :
+    _convert_complexint32_array req a =
+      (match fieldOf req, fieldOf a.dtype with
+       | some fr, some _ => Except.ok ⟨req, a.shape, deinterleave ((interleave a.elems).map (fieldConv fr))⟩
+       | _, _ => Except.error PyErr.TypeError) := by
+  unfold _convert_complexint32_array viewAs FArr.astype viewFields
+  cases fieldOf req <;> cases fieldOf a.dtype <;> simp
+
+theorem scalar_has_one (a : Arr) (hwf : a.WF) (hs : a.shape = []) : ∃ e, a.elems = [e] := by
+  unfold Arr.WF at hwf; rw [hs] at hwf; simp [size] at hwf
+  match h : a.elems, hwf with
+  | [e], _ => exact ⟨e, rfl⟩
+
+/-- **Dispatch.**  For every requested dtype and every well-formed array (any shape, 0-d included) the code's
+    validation, identity route, ComplexInt32 route (with the `reshape(1)`…`[0]` detour of a 0-d input) and `astype` route
+    compute exactly `Model.Complex.convert` - so every theorem above about `convert` is a theorem about the generated
+    `convert_complex`. -/
+theorem gen_convert_complex_eq_model (req : DT) (a : Arr) (hwf : a.WF) :
+    Gen.ComplexConvert.convert_complex req a = convert req a := by
+  unfold Gen.ComplexConvert.convert_complex convert
+  by_cases hsup : supported req = true
+  · simp only [hsup, not_true_eq_false, if_false, Bool.not_true, Bool.false_eq_true]
+    by_cases hid : req = a.dtype
+    · simp only [if_pos hid]
+    · simp only [if_neg hid]
+      unfold convertElems
+      by_cases hci : req = DT.ci32 ∨ a.dtype = DT.ci32
+      · rw [if_pos hci, if_pos hci]
+        by_cases hs : a.shape = []
+        · rw [if_pos hs]
+          obtain ⟨e, he⟩ := scalar_has_one a hwf hs
+          simp only [Except.bind, reshape1, he, List.length_singleton, if_true, gen_inner_eq]
+          cases fieldOf req <;> cases fieldOf a.dtype <;> simp [index0, interleave, deinterleave, size, hs]
+        · rw [if_neg hs]
+          simp only [Except.bind, gen_inner_eq]
+          cases fieldOf req <;> cases fieldOf a.dtype <;> simp
+      · rw [if_neg hci, if_neg hci]
+        simp only [Except.bind, astypeArr]
+        cases fieldOf req <;> simp
+  · simp [hsup]
+
+/-- a successful conversion of a well-formed array is well formed (same shape, same number of elements) -/
+theorem gen_convert_wf (req : DT) (a r : Arr) (hwf : a.WF) (h : Gen.ComplexConvert.convert_complex req a = .ok r) :
+    r.WF ∧ r.shape = a.shape := by
+  rw [gen_convert_complex_eq_model req a hwf] at h
+  by_cases hne : req = a.dtype
+  · unfold convert at h
+    split at h
+    · cases h
+    · injection h with h; subst h; exact ⟨hwf, rfl⟩
+  · obtain ⟨_, h2, h3⟩ := convert_elementwise req a r h hne
+    refine ⟨?_, h2⟩
+    unfold Arr.WF at *
+    rw [h2, h3, List.length_map, hwf]
+
+/-- **Exact and round trip, on the generated code.** -/
+theorem gen_to_float_exact (a : Arr) (hwf : a.WF) (hd : a.dtype = .ci32) (hv : AllI16 a.elems) :
+    Gen.ComplexConvert.convert_complex .c64 a = .ok ⟨.c64, a.shape, a.elems⟩ ∧
+    Gen.ComplexConvert.convert_complex .c128 a = .ok ⟨.c128, a.shape, a.elems⟩ := by
+  rw [gen_convert_complex_eq_model _ a hwf, gen_convert_complex_eq_model _ a hwf]
+  exact to_float_exact a hd hv
+
+theorem gen_roundtrip (a : Arr) (hwf : a.WF) (hd : a.dtype = .ci32) (hv : AllI16 a.elems) :
+    (Gen.ComplexConvert.convert_complex .c64 a).bind (Gen.ComplexConvert.convert_complex .ci32) = .ok a ∧
+    (Gen.ComplexConvert.convert_complex .c128 a).bind (Gen.ComplexConvert.convert_complex .ci32) = .ok a := by
+  obtain ⟨e1, e2⟩ := gen_to_float_exact a hwf hd hv
+  obtain ⟨r1, r2⟩ := roundtrip a hd hv
+  obtain ⟨m1, m2⟩ := to_float_exact a hd hv
+  rw [e1, e2]
+  rw [m1] at r1; rw [m2] at r2
+  simp only [Except.bind] at r1 r2 ⊢
+  have w1 : (Arr.mk .c64 a.shape a.elems).WF := hwf
+  have w2 : (Arr.mk .c128 a.shape a.elems).WF := hwf
+  rw [gen_convert_complex_eq_model _ _ w1, gen_convert_complex_eq_model _ _ w2]
+  exact ⟨r1, r2⟩
+
+theorem gen_to_int_truncates (a : Arr) (hwf : a.WF) (hd : a.dtype = .c64 ∨ a.dtype = .c128)
+    (hv : ∀ e ∈ a.elems, (-32768 ≤ truncDy e.1 ∧ truncDy e.1 ≤ 32767) ∧ (-32768 ≤ truncDy e.2 ∧ truncDy e.2 ≤ 32767)) :
+    Gen.ComplexConvert.convert_complex .ci32 a
+      = .ok ⟨.ci32, a.shape, a.elems.map fun e => (⟨truncDy e.1, 0⟩, ⟨truncDy e.2, 0⟩)⟩ := by
+  rw [gen_convert_complex_eq_model _ a hwf]; exact to_int_truncates a hd hv
+
+/-- the 0-d detour really is taken and really returns a 0-d value -/
+example : Gen.ComplexConvert.convert_complex .c64 ⟨.ci32, [], [(⟨-3, 0⟩, ⟨4, 0⟩)]⟩ = .ok ⟨.c64, [], [(⟨-3, 0⟩, ⟨4, 0⟩)]⟩ := by decide
+example : Gen.ComplexConvert.convert_complex .ci32 ⟨.c128, [2, 1], [(⟨-5, 1⟩, ⟨65535, 1⟩), (⟨7, 2⟩, ⟨0, 0⟩)]⟩
+    = .ok ⟨.ci32, [2, 1], [(⟨-2, 0⟩, ⟨32767, 0⟩), (⟨1, 0⟩, ⟨0, 0⟩)]⟩ := by decide
+example : (Arr.mk .ci32 [2, 1] [(⟨1, 0⟩, ⟨2, 0⟩), (⟨3, 0⟩, ⟨4, 0⟩)]).WF := by simp [Arr.WF, size]
 
 end Props.C05
